@@ -167,7 +167,12 @@ impl Iterator for CatchGradualDifficulty {
 
 impl ExactSizeIterator for CatchGradualDifficulty {
     fn len(&self) -> usize {
-        self.diff_objects.len() + 1 - self.idx
+        if self.count.is_empty() {
+            // No palpable objects means no attributes
+            0
+        } else {
+            self.diff_objects.len() + 1 - self.idx
+        }
     }
 }
 
